@@ -76,36 +76,54 @@ def iatTooOld (iat minIat : Int) : Bool :=
   else if iatTooOldCmp == "After" then decide (iat > minIat)
   else false
 
+/-- keyfunc: `s.tokens.Get(claims.Issuer)`, then the parser's `Method.Verify` under that key. -/
+def keyOK (cfg : Cfg) (t : Tok) : Bool :=
+  keyByIssuer && (match lookupKey cfg t.issuer with
+    | some k => t.verifies.contains k
+    | none => false)
+
+/-- jwt.Validator (v5.2.2) `verifyExpiresAt`: `now < exp + leeway` when present. -/
+def expOK (now : Int) (t : Tok) : Bool :=
+  match t.exp with
+  | some e => decide (now < e + leeway)
+  | none => true
+
+/-- `verifyNotBefore`: `now ≥ nbf - leeway` when present. -/
+def nbfOK (now : Int) (t : Tok) : Bool :=
+  match t.nbf with
+  | some n => !(decide (now < n - leeway))
+  | none => true
+
+/-- `verifyIssuedAt` (only with `jwt.WithIssuedAt()`): `now ≥ iat - leeway` when present. -/
+def iatNotFuture (now : Int) (t : Tok) : Bool :=
+  !withIssuedAt || (match t.iat with
+    | some i => !(decide (now < i - leeway))
+    | none => true)
+
+/-- The proxy's own rule after the library accepted the token:
+`issuedAt == nil || issuedAt.Before(now - (maxTokenAge + tokenLeeway))` ⇒ expired. -/
+def iatRecent (now : Int) (t : Tok) : Bool :=
+  match t.iat with
+  | none => !iatNilRejected
+  | some i => !(iatTooOld i (now - maxAgeWindow))
+
+/-- The checks of `parseToken` in the order in which the first failure decides
+the error: parser (segments, registered alg) → `jwt.WithValidMethods` → keyfunc
+(method type, issuer key) → signature → validator (all three time claims are
+evaluated, the proxy maps not-valid-yet / used-before-issued first, then
+expired) → the proxy's age rule. -/
+def checks (cfg : Cfg) (now : Int) (t : Tok) : List (Bool × TokErr) :=
+  [ (t.wellformed, .authFailed),
+    (validMethods.contains t.alg, .authFailed),
+    ((algsOfMethodType keyfuncMethodType).contains t.alg, .authFailed),
+    (keyOK cfg t, .authFailed),
+    (nbfOK now t && iatNotFuture now t, .notValidYet),
+    (expOK now t, .expired),
+    (iatRecent now t, .expired) ]
+
 /-- `(*ProxyServer).parseToken`: `none` = accepted. -/
 def parseToken (cfg : Cfg) (now : Int) (t : Tok) : Option TokErr :=
-  if !t.wellformed then some .authFailed
-  -- jwt.WithValidMethods (checked by the parser before the keyfunc runs)
-  else if !(validMethods.contains t.alg) then some .authFailed
-  -- keyfunc: token.Method.(*jwt.<T>)
-  else if !((algsOfMethodType keyfuncMethodType).contains t.alg) then some .authFailed
-  else
-    -- keyfunc: s.tokens.Get(claims.Issuer)
-    match (if keyByIssuer then lookupKey cfg t.issuer else none) with
-    | none => some .authFailed
-    | some k =>
-      if !(t.verifies.contains k) then some .authFailed
-      else
-        -- jwt.Validator (v5.2.2): all three are evaluated, errors are joined
-        let expBad := match t.exp with
-          | some e => !(decide (now < e + leeway))
-          | none => false
-        let nbfBad := match t.nbf with
-          | some n => decide (now < n - leeway)
-          | none => false
-        let iatBad := withIssuedAt && (match t.iat with
-          | some i => decide (now < i - leeway)
-          | none => false)
-        if nbfBad || iatBad then some .notValidYet
-        else if expBad then some .expired
-        else
-          match t.iat with
-          | none => if iatNilRejected then some .expired else none
-          | some i => if iatTooOld i (now - maxAgeWindow) then some .expired else none
+  ((checks cfg now t).find? (fun p => !p.1)).map (·.2)
 
 /-! ## State -/
 
@@ -259,8 +277,10 @@ def byeTo (st : State) (c : Option Nat) (reason : String) : State × Outs :=
 def isExpired (st : State) (s : Sess) : Bool :=
   decide (s.lastUsed + (sessionExpirationTime : Int) < st.now)
 
-def closeClearsPubs : Bool := closeCalls.contains "clearPublishers" && clearPublishersDeletesAndCloses
-def closeClearsSubs : Bool := closeCalls.contains "clearSubscribers" && clearSubscribersDeletesAndCloses
+def closeClearsPubs : Bool :=
+  deleteSessionCloses && closeCalls.contains "clearPublishers" && clearPublishersDeletesAndCloses
+def closeClearsSubs : Bool :=
+  deleteSessionCloses && closeCalls.contains "clearSubscribers" && clearSubscribersDeletesAndCloses
 def downClearsPubs : Bool :=
   mcuDisconnectNotifiesAllSessions && notifyDisconnectedCalls.contains "clearPublishers" && clearPublishersDeletesAndCloses
 def downClearsSubs : Bool :=
@@ -279,22 +299,24 @@ def clearSess (sid : Nat) (doPubs doSubs : Bool) (st : State) : State :=
       sessions := updSess sid (fun s => { s with pubs := if doPubs then [] else s.pubs,
                                                  subs := if doSubs then [] else s.subs }) st.sessions }
 
-/-- `deleteSessionLocked` + `ProxySession.Close`. -/
+/-- `prev.SetSession(nil)` -/
+def detach (c : Option Nat) (st : State) : State :=
+  match c with
+  | some c => { st with conns := updConn c (fun x => { x with sess := none }) st.conns }
+  | none => st
+
+/-- `delete(s.sessions, id)` -/
+def dropSession (sid : Nat) (st : State) : State :=
+  { st with sessions := st.sessions.filter (fun x => !(x.sid == sid)) }
+
+/-- `deleteSessionLocked` + `ProxySession.Close`: `SetClient(nil)` (the previous
+connection loses its session and is told bye), `clearPublishers`, `clearSubscribers`. -/
 def closeSession (sid : Nat) (st : State) : State × Outs :=
   match findSess st sid with
   | none => (st, [])
   | some s =>
-    if !deleteSessionCloses then
-      ({ st with sessions := st.sessions.filter (fun x => !(x.sid == sid)) }, [])
-    else
-    -- SetClient(nil): the previous connection loses its session and is told bye
-    let reason := if isExpired st s then "session_expired" else "session_closed"
-    let st1 := match s.client with
-      | some c => { st with conns := updConn c (fun x => { x with sess := none }) st.conns }
-      | none => st
-    let (st2, o) := byeTo st1 s.client reason
-    let st3 := clearSess sid closeClearsPubs closeClearsSubs st2
-    ({ st3 with sessions := st3.sessions.filter (fun x => !(x.sid == sid)) }, o)
+    let r := byeTo (detach s.client st) s.client (if isExpired st s then "session_expired" else "session_closed")
+    (dropSession sid (clearSess sid closeClearsPubs closeClearsSubs r.1), r.2)
 
 def closeAll : List Nat → State → State × Outs
   | [], st => (st, [])
@@ -345,6 +367,18 @@ def outcomeErr : Outcome → String
   | .timeout => "timeout"
   | _ => "internal_error"
 
+def listed (s : Sess) (isPub : Bool) (id : Nat) : Bool :=
+  if isPub then s.pubs.contains id else s.subs.contains id
+
+/-- `StorePublisher` / `StoreSubscriber`. -/
+def addOwned (isPub : Bool) (id : Nat) (s : Sess) : Sess :=
+  if isPub then { s with pubs := s.pubs ++ [id] } else { s with subs := s.subs ++ [id] }
+
+/-- `DeletePublisher` / `DeleteSubscriber` (the entry is known to be there). -/
+def removeOwned (isPub : Bool) (id : Nat) (s : Sess) : Sess :=
+  if isPub then { s with pubs := s.pubs.filter (fun y => !(y == id)) }
+  else { s with subs := s.subs.filter (fun y => !(y == id)) }
+
 def createObj (st : State) (c sid : Nat) (isPub : Bool) : Outcome → State × Outs
   | .ok =>
     let id := st.nextObj
@@ -352,16 +386,13 @@ def createObj (st : State) (c sid : Nat) (isPub : Bool) : Outcome → State × O
     ({ st with nextObj := id + 1
                clients := st.clients ++ [o]
                mcuOpen := st.mcuOpen ++ [o]
-               sessions := updSess sid (fun s =>
-                 if isPub then { s with pubs := s.pubs ++ [id] } else { s with subs := s.subs ++ [id] }) st.sessions },
+               sessions := updSess sid (addOwned isPub id) st.sessions },
      [(c, .created id)])
   | o => (st, errOut c (outcomeErr o))
 
 def ownerCheck (isPub : Bool) : Bool :=
   if isPub then deletePublisherOwnerCheck else deleteSubscriberOwnerCheck
 
-def listed (s : Sess) (isPub : Bool) (id : Nat) : Bool :=
-  if isPub then s.pubs.contains id else s.subs.contains id
 
 /-- `delete-publisher` / `delete-subscriber`. -/
 def deleteObj (st : State) (c : Nat) (s : Sess) (isPub : Bool) (id : Nat) : State × Outs :=
@@ -374,9 +405,7 @@ def deleteObj (st : State) (c : Nat) (s : Sess) (isPub : Bool) (id : Nat) : Stat
       ({ st with
          clients := dropId id st.clients
          mcuOpen := dropId id st.mcuOpen
-         sessions := updSess s.sid (fun x =>
-           if isPub then { x with pubs := x.pubs.filter (fun y => !(y == id)) }
-           else { x with subs := x.subs.filter (fun y => !(y == id)) }) st.sessions },
+         sessions := updSess s.sid (removeOwned isPub id) st.sessions },
        [(c, .deleted id)])
 
 /-- A message on a connection that has a session (after `MarkUsed`). -/
@@ -466,9 +495,7 @@ def doMcuClose (id : Nat) (st : State) : State × Outs :=
       else
         let st2 := { st1 with
           clients := dropId id st1.clients
-          sessions := updSess s.sid (fun x =>
-            if o.isPub then { x with pubs := x.pubs.filter (fun y => !(y == id)) }
-            else { x with subs := x.subs.filter (fun y => !(y == id)) }) st1.sessions }
+          sessions := updSess s.sid (removeOwned o.isPub id) st1.sessions }
         (st2, sendTo st2 s.client (.evObj (if o.isPub then "publisher-closed" else "subscriber-closed") id))
 
 def step (cfg : Cfg) (st : State) : Op → State × Outs
